@@ -245,6 +245,14 @@ fn build(picks: &[P], b: &mut B, depth: usize, xf: &dyn Fn(BBox) -> BBox) -> Vec
                 out.push(XEl::new("a").a("href", "#top").kid(XEl::new("rect").a("id", id).a("xy", format!("{} {}", num(x), num(y))).a("wh", format!("{} {}", num(w), num(h)))));
             }
         }
+        // svgdx's own <box> and <point> written with separate start and end tags
+        if p.r % 9 == 5 {
+            if let Some(e) = out.last_mut() {
+                if e.kids.is_empty() && matches!(e.name.as_str(), "box" | "point") {
+                    e.kids.push(X::Raw(if p.r % 2 == 0 { "" } else { "\n  " }.into()));
+                }
+            }
+        }
         // a shape may hold descriptive or animation elements: it is rendered, and counts, all the same
         if p.r % 9 == 4 {
             if let Some(e) = out.last_mut() {
